@@ -143,7 +143,7 @@ def main():
         ],
         "checks": checks,
         "not_applicable": na,
-        "notes": "Thorough tier = the same harness with 10-100x counts plus a coverage-guided libFuzzer stage (fuzz.sh: fz_text for C02/C03/C06/C16, fz_machine for C05/C11/C13, fz_tui for C17; artifacts are re-checked by the deterministic replay path). Every check rebuilds the harness against /repo's working tree (cargo path dependency) before running. exit 0 held / 1 VIOLATION / 2 inconclusive. Known findings: /verif/known-findings.txt.",
+        "notes": "Thorough tier = the same harness with 10-100x counts plus a coverage-guided libFuzzer stage (fuzz.sh: fz_text (raw text) and fz_tokens (line-template decoder) for C02/C03/C06/C16, fz_machine for C05/C11/C13, fz_tui for C17; artifacts are re-checked by the deterministic replay path). Every check rebuilds the harness against /repo's working tree (cargo path dependency) before running. exit 0 held / 1 VIOLATION / 2 inconclusive. Known findings: /verif/known-findings.txt.",
     }
     if not na:
         del m["not_applicable"]
